@@ -699,3 +699,50 @@ func init() {
 		Outside: []string{"names decoded from arbitrary (unstructured) symbolic bytes", "SSDP / UPnP and LLMNR extraction", "TXT model parsing", "the mDNS response cache expiry"},
 	})
 }
+
+func leaseFileJobs(tier string) []Job {
+	c := Config{MaxLoop: 1200, MaxWall: 900, Stubs: map[string]bool{}}
+	var jobs []Job
+	for sh := int64(0); sh < 64; sh++ {
+		n := sh >> 3 & 3
+		if n == 3 || (sh&4 != 0 && sh&1 == 0) || (sh&32 != 0 && n == 0) {
+			continue
+		}
+		if n == 2 && tier != "thorough" && sh&7 != 3 {
+			continue // quick tier: two lease records only with both subnets present and unchanged
+		}
+		if n == 2 && tier != "thorough" && sh&32 != 0 {
+			continue
+		}
+		jobs = append(jobs, Job{Pkg: "handlers/dhcp4_spoofer", Func: "VerifC18Load", Args: []int64{sh}, Cfg: c, Reach: []string{"constructed"}})
+	}
+	for e := int64(0); e < 2; e++ {
+		jobs = append(jobs, Job{Pkg: "handlers/dhcp4_spoofer", Func: "VerifC18Broken", Args: []int64{e}, Cfg: c, Reach: []string{"constructed"}})
+	}
+	jobs = append(jobs, Job{Pkg: "handlers/dhcp4_spoofer", Func: "VerifC18Restart", Args: []int64{0, 1}, SplitN: 1, Cfg: c, Reach: []string{"restarted"}})
+	jobs = append(jobs, Job{Pkg: "handlers/dhcp4_spoofer", Func: "VerifC18Restart", Args: []int64{1, 1}, SplitN: 6, Cfg: c, Reach: []string{"restarted"}})
+	jobs = append(jobs, Job{Pkg: "handlers/dhcp4_spoofer", Func: "VerifC18Restart", Args: []int64{2, 1}, SplitN: 36, Cfg: c, Reach: []string{"restarted"}})
+	return jobs
+}
+
+func init() {
+	register(&Prop{
+		ID:        "C18",
+		Technique: "bounded symbolic execution of the real lease persistence code (saveConfig, loadConfig / loadByteArray, Config.New) with gopkg.in/yaml.v2 and the file system replaced by models (harness/handlers/dhcp4_spoofer/c18.go): a fidelity model for save-then-load, and an ARBITRARY parsed document for damaged files; SMT-decided table obligations; counterexamples replayed against the real yaml package and real files",
+		Jobs:      leaseFileJobs,
+		Filter:    prefixFilter("C18:", true),
+		Bounds: func(tier string) map[string]string {
+			return map[string]string{
+				"damaged file": "parsed document: net1 / net2 sections each present or missing, net1 describing another LAN, 0..2 lease records with arbitrary state (incl. out of range), client id (missing / 1 / 7 bytes), MAC (missing / arbitrary), address (unset / 192.168.0.x / arbitrary IPv4), first record's MAC captured or not; unparsable file; missing file (quick tier: two records only with both sections intact)",
+				"restart":      "pre-state lease tables of 0..2 leases in every (state, subnet) combination (free / discover / allocated x home / netfilter), arbitrary client ids, MACs, addresses and expiry; save by the real saveConfig, construction by the real New, then a renewal REQUEST by the first allocated, unexpired client",
+			}
+		},
+		Assumptions: []string{
+			"yaml fidelity model: Unmarshal(Marshal(doc)) returns the exported fields of doc except those tagged yaml:\"-\" (Count, subnet); omitempty byte slices come back nil (replays use the real package)",
+			"damaged-file model: every corruption that still parses yields SOME value of the document type (over-approximation); the relation between the damaged bytes and the original document ('never a binding absent from the original file') is judged against the parsed document only",
+			"os.IsNotExist is false for model errors (it only selects a log line)",
+			"small pools as in C11 (home /28, netfilter /29); primary server mode for the renewal",
+		},
+		Outside: []string{"the YAML text level: which byte-level truncations and substitutions parse, and to what (gopkg.in/yaml.v2 uses reflection and is not encoded)", "crash points inside ioutil.WriteFile", "hangs inside the YAML parser"},
+	})
+}
